@@ -1,7 +1,7 @@
 (** * C01 "up to single-precision rounding": the Fokker-Planck stencil operator in binary32.
 
-    [SourceMap::apply] computes, per output row [y] of an energy column, the float accumulation of the
-    [ip] products [data_in[h.index] * h.weight] of the table row ([data_out[i] = 0; data_out[i] += ...]).
+    [FokkerPlanckMap::apply] computes, per output row [y] of an energy column, the float accumulation of the
+    [ip] products [data_in[offs+h.index] * h.weight] of the table row ([value = 0; value += ...]).
     For ANY table [H] of exact (real) weights, any stored float weights [wh] at the same indices, any
     computed column [out] ([col_computed]: every cell a [psum_opt] of its products, i.e. any order, every
     rounding optional - fused or not):
@@ -24,6 +24,20 @@ Local Open Scope R_scope.
 Definition col_computed (n ip : Z) (idx : Z -> Z) (wh : Z -> R) (r out : Z -> R) : Prop :=
   forall y, (0 <= y < n)%Z ->
     psum_opt (map (fun j => r (idx (y * ip + j)%Z) * wh (y * ip + j)%Z) (zrange ip)) (out y).
+
+(** the loop of [FokkerPlanckMap::apply] (left to right from 0; round-to-nearest at every step, or every step
+    fused) is a [col_computed] *)
+Definition col_loop (fused : bool) (ip : Z) (idx : Z -> Z) (wh r : Z -> R) (y : Z) : R :=
+  (if fused then acc_fma else acc_rn) (map (fun j => (r (idx (y * ip + j)%Z), wh (y * ip + j)%Z)) (zrange ip)) 0.
+
+Lemma col_loop_computed fused n ip idx wh r : col_computed n ip idx wh r (col_loop fused ip idx wh r).
+Proof.
+  intros y Hy. unfold col_loop.
+  replace (map (fun j => r (idx (y * ip + j)%Z) * wh (y * ip + j)%Z) (zrange ip))
+    with (map (fun ab => fst ab * snd ab) (map (fun j => (r (idx (y * ip + j)%Z), wh (y * ip + j)%Z)) (zrange ip)))
+    by (rewrite map_map; reflexivity).
+  destruct fused; [apply loop_fma_psum | apply loop_rn_psum].
+Qed.
 
 (** the table of rounding factors at the indices of [H] *)
 Definition cw_table (ip : Z) (H : Z -> Z * R) (wh : Z -> R) (k : Z) : Z * R :=
